@@ -13,7 +13,7 @@ Lemma obj_good : forall n L s o s1 sends e,
   InvO (op_ids s o ++ L) s1 /\ Forall (Good (op_ids s o ++ L)) (flat_map send_msgs sends).
 Proof.
   intros n L s o s1 sends e I Hw H.
-  destruct o; [> eapply og_OSynth; eassumption | eapply og_OGroup; eassumption | eapply og_OBasicNew; eassumption | eapply og_ONodeSet; eassumption | eapply og_ONodeSetn; eassumption | eapply og_ONodeMap; eassumption | eapply og_ONodeMapn; eassumption | eapply og_ONodeFill; eassumption | eapply og_ONodeRelease; eassumption | eapply og_ONodeRun; eassumption | eapply og_ONodeFree; eassumption | eapply og_ONodeTrace; eassumption | eapply og_ONodeQuery; eassumption | eapply og_ONodeMoveBefore; eassumption | eapply og_ONodeMoveAfter; eassumption | eapply og_ONodeMoveToHead; eassumption | eapply og_ONodeMoveToTail; eassumption | eapply og_OGroupFreeAll; eassumption | eapply og_OGroupDeepFree; eassumption | eapply og_OGroupDumpTree; eassumption | eapply og_OReorder; eassumption | eapply og_OFreeDefaultGroup; eassumption | eapply og_OSendDefaultGroups; eassumption | eapply og_ODumpOsc; eassumption | eapply og_ODefSend; eassumption | eapply og_ODefLoad; eassumption | eapply og_OBufNew; eassumption | eapply og_OBufConsecutive; eassumption | eapply og_OBufNewRead; eassumption | eapply og_OBufNewCue; eassumption | eapply og_OBufAlloc; eassumption | eapply og_OBufAllocRead; eassumption | eapply og_OBufRead; eassumption | eapply og_OBufCue; eassumption | eapply og_OBufWrite; eassumption | eapply og_OBufSimple; eassumption | eapply og_OBufFree; eassumption | eapply og_OBufFreeAll; eassumption | eapply og_OBufFill; eassumption | eapply og_OBufSet; eassumption | eapply og_OBufSetn; eassumption | eapply og_OBufQuery; eassumption | eapply og_OBufGet; eassumption | eapply og_OBufGetn; eassumption | eapply og_OBufGen; eassumption | eapply og_OBufNormalize; eassumption | eapply og_OBufCopyData; eassumption | eapply og_OBufSendList; eassumption | eapply og_OBufNewSendList; eassumption | eapply og_OBufGetToList; eassumption | eapply og_OBusNew; eassumption | eapply og_OBusFree; eassumption | eapply og_OBusSub; eassumption | eapply og_OBusSet; eassumption | eapply og_OBusSetn; eassumption | eapply og_OBusSetPairs; eassumption | eapply og_OBusFill; eassumption | eapply og_OBusClear; eassumption | eapply og_OBusGet; eassumption | eapply og_OBusGetn; eassumption | eapply og_ORaw; eassumption | eapply og_OBindEnter; eassumption | eapply og_OBindExit; eassumption | eapply og_OBindRaise; eassumption | eapply og_OSync; eassumption ].
+  destruct o; [> eapply og_OSynth; eassumption | eapply og_OGroup; eassumption | eapply og_OBasicNew; eassumption | eapply og_ONodeSet; eassumption | eapply og_ONodeSetn; eassumption | eapply og_ONodeMap; eassumption | eapply og_ONodeMapn; eassumption | eapply og_ONodeFill; eassumption | eapply og_ONodeRelease; eassumption | eapply og_ONodeRun; eassumption | eapply og_ONodeFree; eassumption | eapply og_ONodeTrace; eassumption | eapply og_ONodeQuery; eassumption | eapply og_ONodeMoveBefore; eassumption | eapply og_ONodeMoveAfter; eassumption | eapply og_ONodeMoveToHead; eassumption | eapply og_ONodeMoveToTail; eassumption | eapply og_OGroupFreeAll; eassumption | eapply og_OGroupDeepFree; eassumption | eapply og_OGroupDumpTree; eassumption | eapply og_OReorder; eassumption | eapply og_OFreeDefaultGroup; eassumption | eapply og_OSendDefaultGroups; eassumption | eapply og_ODumpOsc; eassumption | eapply og_ODefSend; eassumption | eapply og_ODefLoad; eassumption | eapply og_OPlay; eassumption | eapply og_OBufNew; eassumption | eapply og_OBufConsecutive; eassumption | eapply og_OBufNewRead; eassumption | eapply og_OBufNewCue; eassumption | eapply og_OBufAlloc; eassumption | eapply og_OBufAllocRead; eassumption | eapply og_OBufRead; eassumption | eapply og_OBufCue; eassumption | eapply og_OBufWrite; eassumption | eapply og_OBufSimple; eassumption | eapply og_OBufFree; eassumption | eapply og_OBufFreeAll; eassumption | eapply og_OBufFill; eassumption | eapply og_OBufSet; eassumption | eapply og_OBufSetn; eassumption | eapply og_OBufQuery; eassumption | eapply og_OBufGet; eassumption | eapply og_OBufGetn; eassumption | eapply og_OBufGen; eassumption | eapply og_OBufNormalize; eassumption | eapply og_OBufCopyData; eassumption | eapply og_OBufSendList; eassumption | eapply og_OBufNewSendList; eassumption | eapply og_OBufGetToList; eassumption | eapply og_OBusNew; eassumption | eapply og_OBusFree; eassumption | eapply og_OBusSub; eassumption | eapply og_OBusSet; eassumption | eapply og_OBusSetn; eassumption | eapply og_OBusSetPairs; eassumption | eapply og_OBusFill; eassumption | eapply og_OBusClear; eassumption | eapply og_OBusGet; eassumption | eapply og_OBusGetn; eassumption | eapply og_ORaw; eassumption | eapply og_OBindEnter; eassumption | eapply og_OBindExit; eassumption | eapply og_OBindRaise; eassumption | eapply og_OSync; eassumption ].
 Qed.
 
 (* what reaches the OSC interface *)
